@@ -250,6 +250,18 @@ fn shape_inner(g: &CompositionGraph) -> String {
             _ => {}
         }
     }
+    // definitions whose named components are not all defined themselves (own traversal of the type structure)
+    let defined: Vec<Type> = g.node_ids().filter(|id| matches!(g[*id].kind(), NodeKind::Definition)).filter_map(|id| match g[id].item_kind() { ItemKind::Type(t) => Some(t), _ => None }).collect();
+    for t in &defined {
+        let mut deps = Vec::new();
+        match t {
+            Type::Value(v) => named_components(types, *v, true, 0, &mut deps),
+            Type::Func(f) => { let f = &types[*f]; for v in f.params.values().chain(f.result.iter()) { named_components(types, *v, false, 0, &mut deps); } }
+            _ => {}
+        }
+        if deps.iter().any(|(d, _)| !defined.contains(&Type::Value(ValueType::Defined(*d)))) { tags.push("D:undef-dep".into()); }
+        if deps.iter().any(|(d, deep)| *deep && defined.contains(&Type::Value(ValueType::Defined(*d)))) { tags.push("D:deep-dep".into()); }
+    }
     let all: Vec<(&str, ItemKind, Option<NodeId>)> = g.imports().collect();
     for (_, k, nd) in &all { if nd.is_none() { tags.push(format!("U:{}", kind_tag(types, *k))); } }
     for (i, (n1, k1, _)) in all.iter().enumerate() { for (n2, k2, _) in all.iter().skip(i + 1) {
@@ -489,6 +501,21 @@ fn gen_history(u: &Universe, r: &mut Rng, big: bool) -> Vec<Op> {
                 continue;
             }
         }
+        // a composite definition and the definitions it depends on, in a random order, optionally through a slot freed by a removal
+        if r.chance(1, 9) {
+            const CHAINS: &[&[usize]] = &[&[24, 6, 23], &[25, 8, 9], &[26, 23], &[27, 6, 23], &[28, 23, 8], &[29, 9, 23], &[30, 23],
+                &[31, 28, 29, 23, 8, 9], &[7, 6], &[10, 6], &[11, 6], &[2, 0, 1], &[12, 6, 8], &[13, 6, 11]];
+            let chain = *r.pick(CHAINS);
+            let mut order: Vec<usize> = chain.to_vec();
+            for k in (1..order.len()).rev() { let j = r.below(k as u64 + 1) as usize; order.swap(k, j); }
+            let mut names: Vec<usize> = vec![6, 7, 22, 26, 27, 20, 34, 35, 33];
+            let dummy = if r.chance(1, 2) { g.try_op(Op::Def(names.pop().unwrap(), *r.pick(&[3usize, 4, 5])), false).map(|res| res[1..].parse::<usize>().unwrap()) } else { None };
+            for (k, t) in order.iter().enumerate() {
+                if k == 1 { if let Some(d) = dummy { g.try_op(Op::Rm(d), true); } }
+                if let Some(nm) = names.pop() { g.try_op(Op::Def(nm, *t), false); }
+            }
+            continue;
+        }
         let c = r.below(100);
         if c < 20 || (insts.is_empty() && c < 55) {
             if g.regs.is_empty() { continue; }
@@ -618,6 +645,45 @@ fn gen_doc(u: &Universe, r: &mut Rng) -> String {
     s
 }
 
+/// WAC documents that DECLARE a resource and functions whose result (or parameter) mentions `borrow<r>` at some nesting
+/// position: ok / err arm of a result, option, list, tuple position, field of a named record, case of a named variant, type alias.
+/// Each must be rejected by the resolver or encode to a valid component.
+fn gen_borrow_doc(r: &mut Rng) -> String {
+    let mut decls: Vec<String> = Vec::new();
+    let mut n = 0usize;
+    let leaf = match r.below(8) { 0 | 1 => "r", _ => "borrow<r>" };
+    let mut t = leaf.to_string();
+    let depth = 1 + r.below(3);
+    for _ in 0..depth {
+        n += 1;
+        t = match r.below(14) {
+            0 | 1 => format!("result<u32, {t}>"),
+            2 => format!("result<{t}, string>"),
+            3 => format!("result<_, {t}>"),
+            4 => format!("result<{t}>"),
+            5 => format!("option<{t}>"),
+            6 => format!("list<{t}>"),
+            7 => format!("tuple<u8, {t}>"),
+            8 => format!("tuple<{t}, u8>"),
+            9 => { decls.push(format!("  record rec{n} {{ a: u32, b: {t} }}")); format!("rec{n}") }
+            10 => { decls.push(format!("  record rec{n} {{ b: {t}, a: u32 }}")); format!("rec{n}") }
+            11 => { decls.push(format!("  variant var{n} {{ p, q({t}) }}")); format!("var{n}") }
+            12 => { decls.push(format!("  variant var{n} {{ q({t}), p }}")); format!("var{n}") }
+            _ => { decls.push(format!("  type al{n} = {t};")); format!("al{n}") }
+        };
+    }
+    let mut s = String::from("package test:comp;\ninterface i {\n  resource r;\n");
+    for d in &decls { s.push_str(d); s.push('\n'); }
+    match r.below(4) {
+        0 => { let _ = writeln!(s, "  g: func(p: {t});"); }
+        1 => { let _ = writeln!(s, "  f: func(p: {t}) -> {t};"); }
+        _ => { let _ = writeln!(s, "  f: func() -> {t};"); }
+    }
+    s.push_str("}\n");
+    if r.chance(1, 3) { s.push_str("world w {\n  import i;\n}\n"); }
+    s
+}
+
 const FIXTURES: &[&str] = &[
     "examples/script.wac",
     "crates/wac-parser/tests/encoding/include-resource.wac", "crates/wac-parser/tests/encoding/instantiation.wac",
@@ -633,12 +699,13 @@ const FIXTURES: &[&str] = &[
 ];
 
 fn case_line(u: &Universe, tier: &str, seed: u64, idx: usize) -> Option<String> {
-    let (nh, nd) = if tier == "thorough" { (6000, 1500) } else { (330, 60) };
+    let (nh, nd, nb) = if tier == "thorough" { (6000, 1500, 600) } else { (330, 60, 40) };
     if idx < FIXTURES.len() { return Some(format!("F {}", FIXTURES[idx])); }
     let i = idx - FIXTURES.len();
     let mut r = Rng::new(seed.wrapping_mul(1_000_003).wrapping_add(idx as u64));
     if i < nh { let ops = gen_history(u, &mut r, tier == "thorough" && i % 3 == 0); return Some(format!("H {}", ops.iter().map(show_op).collect::<Vec<_>>().join(";"))); }
     if i < nh + nd { return Some(format!("W g{i} {}", enc(&gen_doc(u, &mut r)))); }
+    if i < nh + nd + nb { return Some(format!("W b{i} {}", enc(&gen_borrow_doc(&mut r)))); }
     None
 }
 
@@ -681,6 +748,7 @@ fn worker(args: &[String]) {
 fn main() {
     let args: Vec<String> = std::env::args().collect();
     if args[1] == "--worker" { return worker(&args); }
+    if args[1] == "--bdoc" { let mut r = Rng::new(args[2].parse().unwrap()); println!("{}", gen_borrow_doc(&mut r)); return; }
     if args[1] == "--doc" { let u = build_universe(); let mut r = Rng::new(args[2].parse().unwrap()); println!("{}", gen_doc(&u, &mut r)); return; }
     let (tier, seed, cases, imp) = (&args[1], &args[2], &args[3], &args[4]);
     let replay = args.get(5).cloned().unwrap_or("-".into());
